@@ -747,6 +747,9 @@ func (w *world) doRounds(slot int, rounds int, ask bool, afterChange bool) {
 	if len(before) == 0 {
 		return
 	}
+	if rounds < 1 {
+		rounds = 1
+	}
 	spec := toSpec(before)
 	T := specTotal(spec)
 	n := int64(len(before))
@@ -1175,8 +1178,11 @@ func runCase(o *out.Out, r *gen.Rand, c int) {
 					minp = v.power
 				}
 			}
-			need := (int64(len(cur))+2)*T/minp + 1
-			if need <= 3000 && r.Chance(2, 3) {
+			need := int64(1) << 40 // totals this large cannot be covered by a run of single rounds
+			if tb := total(cur); tb.IsInt64() && T > 0 && T < 1<<30 {
+				need = (int64(len(cur))+2)*T/minp + 1
+			}
+			if need > 0 && need <= 3000 && r.Chance(2, 3) {
 				rounds = int(need) + r.Intn(50)
 			}
 			w.doRounds(slot, rounds, ask(), changed)
